@@ -71,7 +71,7 @@ Open Scope string_scope.
      echo " d=" . $d;
  *)
 Definition ex_prog : prog :=
-  {| funcs := [{| fname := "fact"; fparams := [("n", None)]; fbody := (SSeq (SIf (EBin Le (EVar "n") (ELit (VInt 1))) (SReturn (Some (ELit (VInt 1)))) EINil SSkip) (SReturn (Some (EBin Mul (EVar "n") (ECall "fact" (ACons (EBin Sub (EVar "n") (ELit (VInt 1))) ANil)))))) |}; {| fname := "counter"; fparams := [("step", Some (VInt 2))]; fbody := (SSeq (SStatic "n" (VInt 10)) (SSeq (SExpr (EAssign "n" (EBin Add (EVar "n") (EVar "step")))) (SReturn (Some (EVar "n"))))) |}; {| fname := "scan"; fparams := [("limit", None); ("i", Some (VInt 0))]; fbody := (SSeq (SExpr (EAssign "acc" (ELit (VInt 0)))) (SSeq (SWhile (EBin Lt (EVar "i") (EVar "limit")) (SSeq (SExpr (EPostInc "i")) (SSeq (SIf (EBin Eq (EVar "i") (ELit (VInt 2))) (SContinue 1) EINil SSkip) (SSeq (SForeach (EArr (ACons (ELit (VInt 1)) (ACons (ELit (VInt 2)) (ACons (ELit (VInt 3)) ANil)))) (Some "k") "v" (SSeq (SSwitch (EVar "v") (CLCase (ELit (VInt 2)) (SContinue 2) (CLCase (ELit (VInt 3)) (SBreak 3) (CLDefault (SExpr (EAssign "acc" (EBin Add (EVar "acc") (EVar "v")))) CLNil)))) (SEcho (EBin Concat (ELit (VStr "k")) (EVar "k"))))) (SEcho (EBin Concat (ELit (VStr "i")) (EVar "i"))))))) (SReturn (Some (EVar "acc"))))) |}]; main := (SSeq (SExpr (EAssign "i" (ELit (VInt 100)))) (SSeq (SExpr (EAssign "arr" (EArr ANil))) (SSeq (SEcho (EBin Concat (ELit (VStr "f=")) (ECall "fact" (ACons (ELit (VInt 5)) ANil)))) (SSeq (SEcho (EBin Concat (ELit (VStr " c=")) (ECall "counter" ANil))) (SSeq (SEcho (EBin Concat (ELit (VStr ",")) (ECall "counter" (ACons (ELit (VInt 5)) ANil)))) (SSeq (SEcho (EBin Concat (ELit (VStr " s=")) (ECall "scan" (ACons (ELit (VInt 4)) ANil)))) (SSeq (SFor (ACons (EAssign "a" (ELit (VInt 0))) (ACons (EAssign "b" (ELit (VInt 10))) ANil)) (EBin Le (EVar "a") (ELit (VInt 2))) (ACons (EPostInc "a") (ACons (EAssign "b" (EBin Sub (EVar "b") (ELit (VInt 1)))) ANil)) (SSeq (SPush "arr" (EVar "a")) (SIf (EBin Eq (EVar "a") (ELit (VInt 0))) (SEcho (EBin Concat (ELit (VStr " zero")) (ELit (VInt 0)))) (EICons (EBin Eq (EVar "a") (ELit (VInt 1))) (SEcho (EBin Concat (ELit (VStr " one")) (EVar "b"))) EINil) (SEcho (EBin Concat (ELit (VStr " other")) (EVar "b")))))) (SSeq (SExpr (EAssign "d" (ELit (VInt 0)))) (SSeq (SDoWhile (SSeq (SExpr (EPostInc "d")) (SIf (EAnd (EBin Gt (EVar "d") (ELit (VInt 1))) (ENot (EBin Eq (EVar "d") (ELit (VInt 5))))) (SBreak 1) EINil SSkip)) (EBin Lt (EVar "d") (ELit (VInt 9)))) (SSeq (SForeach (EVar "arr") None "e" (SEcho (EBin Concat (ELit (VStr " e")) (EVar "e")))) (SSeq (SEcho (EBin Concat (ELit (VStr " i=")) (EVar "i"))) (SEcho (EBin Concat (ELit (VStr " d=")) (EVar "d")))))))))))))) |}.
+  {| funcs := [{| fname := "fact"; fparams := [("n", None)]; fbody := (SSeq (SIf (EBin Le (EVar "n") (ELit (VInt 1))) (SReturn (Some (ELit (VInt 1)))) EINil SSkip) (SReturn (Some (EBin Mul (EVar "n") (ECall "fact" (ACons (EBin Sub (EVar "n") (ELit (VInt 1))) ANil)))))) |}; {| fname := "counter"; fparams := [("step", Some (VInt 2))]; fbody := (SSeq (SStatic "n" (VInt 10)) (SSeq (SExpr (EAssign "n" (EBin Add (EVar "n") (EVar "step")))) (SReturn (Some (EVar "n"))))) |}; {| fname := "scan"; fparams := [("limit", None); ("i", Some (VInt 0))]; fbody := (SSeq (SExpr (EAssign "acc" (ELit (VInt 0)))) (SSeq (SWhile (EBin Lt (EVar "i") (EVar "limit")) (SSeq (SExpr (EPostInc "i")) (SSeq (SIf (EBin Eq (EVar "i") (ELit (VInt 2))) (SContinue 1) EINil SSkip) (SSeq (SForeach (EArr (ACons (ELit (VInt 1)) (ACons (ELit (VInt 2)) (ACons (ELit (VInt 3)) ANil)))) (Some "k") "v" (SSeq (SSwitch (EVar "v") (CLCase (ELit (VInt 2)) (SContinue 2) (CLCase (ELit (VInt 3)) (SBreak 3) (CLDefault (SExpr (EAssign "acc" (EBin Add (EVar "acc") (EVar "v")))) CLNil)))) (SEcho (EBin Concat (ELit (VStr "k")) (EVar "k"))))) (SEcho (EBin Concat (ELit (VStr "i")) (EVar "i"))))))) (SReturn (Some (EVar "acc"))))) |}]; closures := []; main := (SSeq (SExpr (EAssign "i" (ELit (VInt 100)))) (SSeq (SExpr (EAssign "arr" (EArr ANil))) (SSeq (SEcho (EBin Concat (ELit (VStr "f=")) (ECall "fact" (ACons (ELit (VInt 5)) ANil)))) (SSeq (SEcho (EBin Concat (ELit (VStr " c=")) (ECall "counter" ANil))) (SSeq (SEcho (EBin Concat (ELit (VStr ",")) (ECall "counter" (ACons (ELit (VInt 5)) ANil)))) (SSeq (SEcho (EBin Concat (ELit (VStr " s=")) (ECall "scan" (ACons (ELit (VInt 4)) ANil)))) (SSeq (SFor (ACons (EAssign "a" (ELit (VInt 0))) (ACons (EAssign "b" (ELit (VInt 10))) ANil)) (EBin Le (EVar "a") (ELit (VInt 2))) (ACons (EPostInc "a") (ACons (EAssign "b" (EBin Sub (EVar "b") (ELit (VInt 1)))) ANil)) (SSeq (SPush "arr" (EVar "a")) (SIf (EBin Eq (EVar "a") (ELit (VInt 0))) (SEcho (EBin Concat (ELit (VStr " zero")) (ELit (VInt 0)))) (EICons (EBin Eq (EVar "a") (ELit (VInt 1))) (SEcho (EBin Concat (ELit (VStr " one")) (EVar "b"))) EINil) (SEcho (EBin Concat (ELit (VStr " other")) (EVar "b")))))) (SSeq (SExpr (EAssign "d" (ELit (VInt 0)))) (SSeq (SDoWhile (SSeq (SExpr (EPostInc "d")) (SIf (EAnd (EBin Gt (EVar "d") (ELit (VInt 1))) (ENot (EBin Eq (EVar "d") (ELit (VInt 5))))) (SBreak 1) EINil SSkip)) (EBin Lt (EVar "d") (ELit (VInt 9)))) (SSeq (SForeach (EVar "arr") None "e" (SEcho (EBin Concat (ELit (VStr " e")) (EVar "e")))) (SSeq (SEcho (EBin Concat (ELit (VStr " i=")) (EVar "i"))) (SEcho (EBin Concat (ELit (VStr " d=")) (EVar "d")))))))))))))) |}.
 
 Example ex_wf : wf ex_prog = true.
 Proof. vm_compute. reflexivity. Qed.
